@@ -37,7 +37,10 @@ func c17sm2Scenarios() []*sched.Scenario {
 			share(x, n, b)
 		}
 		sign := func(k []byte) func() string {
-			return func() string { a, b, err := sm2.SignHashed(stream(k), dd, ee); return fmt.Sprintf("%x %x %v", a, b, err) }
+			return func() string {
+				a, b, err := sm2.SignHashed(stream(k), dd, ee)
+				return fmt.Sprintf("%x %x %v", a, b, err)
+			}
 		}
 		verify := func() string { ok, err := sm2.VerifyHashed(pxx, pyy, ee, r, s); return fmt.Sprint(ok, err) }
 		derive := func() string { a, b, err := sm2.DerivePublic(dd); return fmt.Sprintf("%x %x %v", a, b, err) }
@@ -50,10 +53,19 @@ func c17sm2Scenarios() []*sched.Scenario {
 		}
 		za := func() string { z, err := sm2.ZA(idd, pxx, pyy); return fmt.Sprintf("%x %v", z, err) }
 		zref, _ := sm2ref.ZA(idd, pxx, pyy)
-		signza := func() string { a, b, err := sm2.SignZa(stream(k1), dd, zref[:], mm); return fmt.Sprintf("%x %x %v", a, b, err) }
-		sign := func() string { a, b, err := sm2.Sign(idd, pxx, pyy, stream(k2), dd, mm); return fmt.Sprintf("%x %x %v", a, b, err) }
+		signza := func() string {
+			a, b, err := sm2.SignZa(stream(k1), dd, zref[:], mm)
+			return fmt.Sprintf("%x %x %v", a, b, err)
+		}
+		sign := func() string {
+			a, b, err := sm2.Sign(idd, pxx, pyy, stream(k2), dd, mm)
+			return fmt.Sprintf("%x %x %v", a, b, err)
+		}
 		h := func() string { y := sm3.New(); y.Write(mm); y.Write(idd); return fmt.Sprintf("%x", y.Sum(nil)) }
-		gen := func() string { p, a, b, err := sm2.GenerateKey(stream(k1)); return fmt.Sprintf("%x %x %x %v", p, a, b, err) }
+		gen := func() string {
+			p, a, b, err := sm2.GenerateKey(stream(k1))
+			return fmt.Sprintf("%x %x %x %v", p, a, b, err)
+		}
 		return [][]sched.Op{{{"ZA", za}, {"sm3", h}}, {{"SignZa", signza}, {"GenerateKey", gen}}, {{"sm3", h}, {"Sign", sign}}}
 	}})
 	return out
